@@ -265,6 +265,21 @@ MAIN:
 			}
 			return
 		case syncup := <-d.synCh:
+			if syncup.Start || syncup.End {
+				// the writes of the notifications received so far are possibly still in flight. They belong
+				// to the sync iteration that ends (or ended) here, wait for them, otherwise they are accounted
+				// to the wrong iteration and escape the pruning (or are pruned although just reported).
+				err = sem.Acquire(ctx, d.config.Sync.WriteWorkers)
+				if err != nil {
+					if errors.Is(err, context.Canceled) {
+						log.Infof("datastore %s sync stopped", d.config.Name)
+						return
+					}
+					log.Errorf("failed to acquire semaphore: %v", err)
+					continue
+				}
+				sem.Release(d.config.Sync.WriteWorkers)
+			}
 			if syncup.Start {
 				log.Debugf("%s: sync start", d.Name())
 				for {
